@@ -46,7 +46,17 @@ def rand_vector(rng: random.Random, n: int):
         base[-1] -= 1.0
     mag = 10.0 ** rng.randint(-12, 9)
     off = rng.choice([0, 0, 1, 10, 1e3, 1e4])
-    return [(b + off) * mag for b in base], int(math.log10(mag)), off
+    if rng.random() < 0.08:  # "any magnitude": far beyond where a square of the value is representable
+        mag = 10.0 ** rng.choice([-290, -250, -200, -170, -120, -60, 40, 80, 120, 150, 200, 280])
+        off = rng.choice([0, 0, 1])
+    return [(b + off) * mag for b in base], int(round(math.log10(mag))), off
+
+
+def rstd(x) -> float:
+    """Population standard deviation formed without squaring the raw magnitudes."""
+    x = np.asarray(x, float)
+    u = float(np.max(np.abs(x))) if len(x) else 0.0
+    return u * float(np.std(x / u)) if u > 0 and math.isfinite(u) else float(np.std(x))
 
 
 def gen_scale(rng: random.Random, tier: str) -> dict:
@@ -63,7 +73,7 @@ def gen_scale(rng: random.Random, tier: str) -> dict:
         if rng.random() < 0.5:
             flags["ddof"] = rng.choice([0, 1, 1, 2, 0.5, 1.5]) if n > 2 else rng.choice([0, 1, 0.5])
     # follow-up vector on the same scale as the training vector
-    s = float(np.std(x)) or 1.0
+    s = rstd(x) or 1.0
     m = float(np.mean(x))
     xn = [m + s * rng.gauss(0, 2) for _ in xn]
     # how the vector is held: float array, integer array (whole numbers), one-column scipy sparse matrix, pandas Series
@@ -148,7 +158,7 @@ def judge_scale(case) -> Outcome:
     n = len(x)
     fn, flags = case["fn"], case["flags"]
     out.sig = (fn, tuple(sorted((k, str(v)) for k, v in flags.items())), n, case["dec"], case["off"], case["path"], case.get("input", "array"))
-    sd = float(np.std(x))
+    sd = rstd(x)
     kappa = float(np.max(np.abs(x)) / sd) if sd > 0 else float("inf")
     if not math.isfinite(kappa) or kappa > 1e6:
         out.decided = False
@@ -171,7 +181,8 @@ def judge_scale(case) -> Outcome:
     c = float(np.mean(x)) if center is True else (0.0 if center is False else float(center))
     xc = x - c
     if scale is True:
-        s = math.sqrt(float(np.sum(xc ** 2)) / (n - ddof)) if n - ddof > 0 else float("nan")
+        u = float(np.max(np.abs(xc))) or 1.0
+        s = u * math.sqrt(float(np.sum((xc / u) ** 2)) / (n - ddof)) if n - ddof > 0 else float("nan")
     elif scale is False:
         s = 1.0
     else:
@@ -215,7 +226,7 @@ def gen_poly(rng: random.Random, tier: str) -> dict:
     degree = rng.randint(1, max(1, min(distinct - 1, 8)))
     raw = rng.random() < 0.25
     nan_rows = sorted(rng.sample(range(n), rng.randint(1, max(1, n // 5)))) if rng.random() < 0.35 and not raw else []
-    s = float(np.std(x)) or 1.0
+    s = rstd(x) or 1.0
     m = float(np.mean(x))
     xn = [m + s * rng.uniform(-1.5, 1.5) for _ in range(rng.choice([1, 4, 9]))]
     inp = "array"
@@ -241,8 +252,12 @@ def judge_poly(case) -> Outcome:
     if len(set(xs.tolist())) <= d:
         out.decided = False
         return out
-    sd = float(np.std(xs))
+    sd = rstd(xs)
     kappa = float(np.max(np.abs(xs)) / sd)
+    # finding K11: the recurrence works with monic polynomials in the data's own units, so sums of squares of degree-k
+    # polynomials need (spread)^(2k) to be representable
+    spread = float(np.max(np.abs(xs - xs.mean())))
+    extreme = spread > 0 and not (-290 < 2 * d * math.log10(spread) + math.log10(len(xs)) < 290)
     tag = f"poly(x, {d}, raw={case['raw']}) n={n} nan_rows={case['nan_rows']} magnitude=1e{case['dec']} path={case['path']}"
     c2 = dict(case)
     c2["x"] = xv.tolist()
@@ -261,6 +276,14 @@ def judge_poly(case) -> Outcome:
         if not np.allclose(a, ref, rtol=1e-12, equal_nan=True) or not np.allclose(b, refn, rtol=1e-12):
             out.fail("c13.poly_raw", f"{tag}: raw powers wrong")
         return out
+    if extreme:
+        Pe = a[ok_rows]
+        with np.errstate(all="ignore"):
+            bad = (not np.isfinite(Pe).all()) or not np.allclose(Pe.T @ Pe, np.eye(d), atol=1e-6)
+        if bad:
+            out.fail("c13.poly_extreme_magnitude", f"{tag}: spread {spread:.1e}: the squares of the degree-{d} polynomial over/underflow; columns are not an orthonormal basis ({Pe[:2].tolist()})")
+            return out
+        out.see("extreme_magnitude_ok")
     if not np.isnan(a[~ok_rows]).all() or np.isnan(a[ok_rows]).any():
         out.fail("c13.poly_nan_rows", f"{tag}: NaN rows of the output are not exactly the NaN rows of the input")
         return out
